@@ -14,6 +14,8 @@ Model functions: `evalCodeBind` (vm/eval.go EvalCode), `vmCallSlice`/`kwTupleToD
 (compileFunc), `goCall` (py/method.go, py/boundmethod.go).
 -/
 import GPy.C04.Boundary
+import GPy.C04.Proofs3
+import GPy.C04.Facts
 namespace GPy.C04
 
 /-! ### EvalCode's binder refines the binding relation of the language reference -/
@@ -394,6 +396,124 @@ example : exSig.WF ∧
     defAndCall exSig { args := [10], kws := [("k", 20)], star := some (.seq [30, 31]), dstar := some (.dict [("z", 40)]) }
       = .ok { fast := [some 10, some 30, some 20, some 61], vararg := some [31], kwdict := some [("z", 40)] } :=
   ⟨by decide, by decide⟩
+
+
+/-! ### binding consults PARAMETERS only (round 3)
+
+`co.Varnames` = positional parameters, keyword-only parameters, the `*args` name, the `**kwargs` name,
+then every other local variable.  Only the first `argcount + kwonlyargcount` entries are legal
+keyword targets. -/
+
+/-- **bind_ignores_locals.**  For EVERY code object and every replacement `v` of its `co_varnames`
+that agrees with it on the first `argcount + kwonlyargcount` entries (the parameters) – any `*`/`**`
+names, any number of further locals, in any order, even names that collide with keywords of the call –
+`EvalCode`'s argument parsing gives the identical outcome for every call: same slots, same `*` tuple,
+same `**` dict, same error.  The locals tail of `co_varnames` is never consulted. -/
+theorem bind_ignores_locals (co : Code) (v : List Name)
+    (hv : v.take (co.argcount + co.kwonlyargcount) = co.varnames.take (co.argcount + co.kwonlyargcount))
+    (hl : co.argcount + co.kwonlyargcount ≤ co.varnames.length) (hl' : co.argcount + co.kwonlyargcount ≤ v.length)
+    (args : List Val) (kws : Dict) (defs : List Val) (kwdefs : Option Dict) :
+    evalCodeBind { co with varnames := v } args kws defs kwdefs = evalCodeBind co args kws defs kwdefs :=
+  evalCodeBind_varnames_congr co v hv hl hl' args kws defs kwdefs
+
+/-- the same for the code object the compiler lays out for ANY body (`layoutVarnames`: parameters,
+`*`/`**` names, then the body's locals in compile order): binding is that of the bare signature -/
+theorem bind_ignores_body (s : Sig) (b : Body) (args : List Val) (kws : Dict) (defs : List Val) (kwdefs : Option Dict) :
+    evalCodeBind (s.fullCode b).co args kws defs kwdefs = evalCodeBind s.code args kws defs kwdefs := by
+  obtain ⟨t, ht⟩ := fullCode_co s b
+  rw [ht]; exact bind_codeWith s t args kws defs kwdefs
+
+/-- one iteration of the keyword loop, for every code object, frame and keyword: a keyword that is
+none of the first `total_args` names of `co_varnames` – be it the `*args` name, the `**kwargs` name,
+another local, a global, or a name that occurs nowhere – takes the "not found" exit: TypeError
+(unexpected keyword argument) without `**kwargs`, otherwise it is stored in the `**kwargs` dict.  The
+outcome does not depend on WHICH non-parameter name it is, except as the key stored. -/
+theorem kw_step_nonparam (co : Code) (total : Nat) (f : Frame) (kv : Name × Val)
+    (hl : total ≤ co.varnames.length) (h : kv.1 ∉ co.varnames.take total) :
+    kwStep co total f kv =
+      match f.kwdict with
+      | none => .error .type
+      | some d => .ok { f with kwdict := some (dictSet d kv.1 kv.2) } :=
+  kwStep_nonparam co total f kv hl h
+
+/-- **kw_matches_params_only.**  For every well-formed signature, EVERY tail of further names in
+`co_varnames` (the `*`/`**` names are already part of `s.code.varnames`; `tail` = the other locals,
+arbitrary), every call: the outcome is the one the reference defines from the PARAMETER names alone
+(`specBind` never sees `tail`), and a keyword `n` that is not a parameter – even when it is spelled
+like the `*args`/`**kwargs` name or like a local in `tail` – is handled exactly like a fresh name:
+without `**kwargs` the call is a TypeError, with `**kwargs` success puts `(n, v)` into the dict, and
+the dict is exactly the non-parameter keywords. -/
+theorem kw_matches_params_only (s : Sig) (hs : s.WF) (tail : List Name) (args : List Val) (kws : Dict)
+    (hk : (kws.map (·.1)).Nodup) (kwdefs : Option Dict) (hkd : KwDefsOK s kwdefs) :
+    evalCodeBind (s.codeWith tail) args kws s.defaults kwdefs =
+      (match specBind s args kws with
+       | none => .error .type
+       | some b => .ok { fast := b.params.map some, vararg := b.star, kwdict := b.dstar })
+    ∧ ∀ n v, (n, v) ∈ kws → n ∉ s.names →
+        (s.dstar = none → evalCodeBind (s.codeWith tail) args kws s.defaults kwdefs = .error .type) ∧
+        (∀ f, evalCodeBind (s.codeWith tail) args kws s.defaults kwdefs = .ok f →
+          ∃ d, f.kwdict = some d ∧ (n, v) ∈ d ∧ d = kws.filter (fun kv => !s.names.contains kv.1)) := by
+  rw [bind_codeWith]
+  refine ⟨bind_refines_spec s hs args kws hk kwdefs hkd, ?_⟩
+  intro n v hmem hn
+  constructor
+  · intro hds
+    rw [bind_refines_spec s hs args kws hk kwdefs hkd]
+    have : specBind s args kws = none := by
+      unfold specBind
+      have hany : (kws.any (fun kv => !s.names.contains kv.1)) = true :=
+        List.any_eq_true.mpr ⟨(n, v), hmem, by simpa using hn⟩
+      simp only [hds, hany, Option.isNone_none, and_self, if_true]
+      split_ifs <;> rfl
+    rw [this]
+  · intro f hf
+    obtain ⟨_, _, _, _, h5, h6⟩ := args_delivered_in_place s hs args kws hk kwdefs hkd f hf
+    obtain ⟨d, hd, hin⟩ := h5 (n, v) hmem hn
+    exact ⟨d, hd, hin, h6 d hd⟩
+
+-- non-vacuity: `def f(a, b=51, *s, k, j=61, **d)` whose body has the locals `t`, `u`, called with the
+-- keywords `s` (the `*args` name), `d` (the `**kwargs` name), `t` (a local): all three go to `**d`
+example :
+    evalCodeBind (exSig.codeWith ["t", "u"]) [10] [("k", 20), ("s", 21), ("d", 22), ("t", 23)] exSig.defaults (some [("j", 61)])
+      = .ok { fast := [some 10, some 51, some 20, some 61], vararg := some [],
+              kwdict := some [("s", 21), ("d", 22), ("t", 23)] } := by decide
+
+-- and without `**kwargs` the keyword `t` is a TypeError although `t` is in `co_varnames`
+example :
+    evalCodeBind ({ exSig with dstar := none }.codeWith ["t", "u"]) [10] [("k", 20), ("t", 23)] exSig.defaults (some [("j", 61)])
+      = .error .type := by decide
+
+-- the layout the compiler produces for `def f(a, *s, **d): u = 1; t = u` is parameters, `s`, `d`, `u`, `t`
+example : layoutVarnames { pos := [⟨"a", none⟩], star := some "s", kwonly := [], dstar := some "d" }
+    { fastUses := ["u", "u", "t", "a"], cells := [], frees := [], generator := false } = ["a", "s", "d", "u", "t"] := by decide
+
+
+/-! ### the tie, strengthened: loop bounds and index expressions of the Go source (regenerated)
+
+`Generated.evalCode*` are rewritten from vm/eval.go by `extract/evalfacts` (go/ast) before every
+build; the right-hand sides are the bounds the model uses (`Facts.lean`, each next to the model
+definition realising it).  These are syntactic pins (tests by `decide` on the regenerated tables),
+not semantic theorems: they make "the Go loop still has the bound the model assumes" a named
+obligation of every run. -/
+
+/-- every three-clause loop of `EvalCode` has exactly the bounds of the model -/
+theorem evalcode_loop_bounds : Generated.evalCodeLoops = modelLoops.map (·.2) := by decide
+
+/-- the keyword search is `for ; j < total_args; j++` over `co.Varnames[j]` – it never walks past the
+parameters (what `kw_matches_params_only` / `bind_ignores_locals` rest on) – and `co.Varnames` is
+indexed nowhere else in `EvalCode` than there and in the keyword-only default loop (`i < total_args`);
+no `range` over `co.Varnames`, the only `range` is the keyword map; no slice expression at all -/
+theorem evalcode_keyword_search :
+    Generated.evalCodeLoops[2]? = some ("", "j < total_args", "j++") ∧
+    Generated.evalCodeIndex.filter (·.1 == "co.Varnames") = [("co.Varnames", "j"), ("co.Varnames", "i")] ∧
+    Generated.evalCodeRanges = modelRanges ∧
+    Generated.evalCodeSlices = [] := by decide
+
+/-- every index expression on the binder's arrays is the one the model mirrors -/
+theorem evalcode_index_exprs : Generated.evalCodeIndex = modelIndex := by decide
+
+/-- `total_args`, `n` and `m` are computed as in the model -/
+theorem evalcode_arg_counts : Generated.evalCodeAssigns = modelAssigns := by decide
 
 /-! ### Go callables -/
 
